@@ -6,7 +6,6 @@ from vlib import render as RR
 
 ID = "C04"
 PROP_FILE = "Props/C04.v"
-THEOREMS = ["C04_table", "C04_collect", "C04_rev", "C04_count", "C04_nodup", "C04_defaults", "C04_nonvacuous"]
 RULE = ("enums with 0-10 variants, each variant independently unit / tuple (1-3 fields) / named (1-3 fields) and enabled / "
         "disabled: EVERY placement of disabled variants for up to 6 variants (all 2^n masks; quick: up to 5), seeded random beyond; "
         "type and const generics. Observed: iter().collect() with every payload field (must be Default), iter().rev().collect(), "
